@@ -496,10 +496,11 @@ def call(F, fname, *a):
             if b is not None and not np.array_equal(v, b, equal_nan=True):
                 F.add("input-mutated", None, {"func": fname, "argument": k})
                 raise Abort()
-        _S["ncall"] = _S.get("ncall", 0) + 1
-        if _S["ncall"] % 5 == 0:
+        _S["n_" + fname] = _S.get("n_" + fname, 0) + 1   # per function: every one of them is sampled
+        if _S["n_" + fname] % 4 == 1:
             verdict, detail = history.reuse_check(getattr(_S["em"], fname), a)
-            _S["hist_" + verdict] = _S.get("hist_" + verdict, 0) + 1
+            hk = "history.reuse_%s.%s" % (verdict.replace("/", ""), fname)
+            _S.setdefault("hist", {})[hk] = _S.setdefault("hist", {}).get(hk, 0) + 1
             if verdict == "stale":
                 F.add("stale-state", None, dict(detail, func=fname))
                 raise Abort()
@@ -647,6 +648,18 @@ def seq_units(A):
             back = call(F, b, call(F, a, v))
             err = _relerr(back, vl)
             F.check("unitconv-inverse", ~(err <= 3 * U), {"v": v, "back": back, "rel_err": err})
+        # the same grids given with an integer dtype (numpy int64 array / python int): same answer as for
+        # the float spelling of the same numbers
+        vi = np.asarray(v, dtype=float)
+        if np.all(np.isfinite(vi)) and np.all(vi >= 1) and np.all(vi < 2.0 ** 52):
+            vint = np.floor(vi).astype(np.int64)
+            vint = vint if isinstance(v, np.ndarray) else int(vint)
+            vflt = np.floor(vi) if isinstance(v, np.ndarray) else float(np.floor(vi))
+            _S["rec"].count("seq.units.integer_dtype")
+            for a, _ in pairs[::2] + pairs[1::2]:
+                gi, gf = call(F, a, vint), call(F, a, vflt)
+                err = _relerr(gi, M.ld(gf))
+                F.check("unitconv-integer-input", ~(err <= 3 * U), {"v": vint, "got": gi, "float_input": gf})
         cyc = call(F, "wavenumber2frequency", call(F, "wavelength2wavenumber", call(F, "frequency2wavelength", v)))
         err = _relerr(cyc, vl)
         F.check("unitconv-cycle", ~(err <= 4 * U), {"v": v, "back": cyc, "rel_err": err})
@@ -1033,9 +1046,8 @@ def run_shard(spec, rec):
     ctx = Ctx(rec, spec)
     rng = np_rng_for(spec["seed"], "c08-" + spec["kind"], spec["shard"])
     {"planck": run_planck, "conv": run_conv, "optics": run_optics}[spec["kind"]](ctx, rng, int(spec["n"]))
-    for k in ("ok", "n/a", "stale"):
-        if _S.get("hist_" + k):
-            rec.count("history.reuse_" + k.replace("/", ""), _S.pop("hist_" + k))
+    for hk, v in sorted(_S.pop("hist", {}).items()):
+        rec.count(hk, v)
 
 
 def replay(case, rec):
